@@ -46,18 +46,24 @@ impl<SlotType: Copy+Debug, const BUFFER_SIZE: usize, const METRICS: bool, const 
     fn push(&self, element: SlotType) -> bool {
         let mutable_self = unsafe { &mut *(*(self as *const Self as *const std::cell::UnsafeCell<Self>)).get() };
         loop {
+            #[cfg(feature = "verif")] crate::verif::yield_point();
             let in_use = self.flag.swap(true, Ordering::Acquire);
             if !in_use {
+                #[cfg(feature = "verif")] crate::verif::yield_point();
                 if self.head >= BUFFER_SIZE as u32 {
                     // stack is full
+                    #[cfg(feature = "verif")] crate::verif::yield_point();
                     self.flag.store(false, Ordering::Relaxed);
                     if METRICS {
                         self.push_full_count.fetch_add(1, Ordering::Relaxed);
                     }
                     return false;
                 }
+                #[cfg(feature = "verif")] crate::verif::yield_point();
                 mutable_self.buffer[self.head as usize] = element;
+                #[cfg(feature = "verif")] crate::verif::yield_point();
                 mutable_self.head += 1;
+                #[cfg(feature = "verif")] crate::verif::yield_point();
                 self.flag.store(false, Ordering::Release);
                 if METRICS {
                     self.push_count.fetch_add(1, Ordering::Relaxed);
@@ -78,18 +84,24 @@ impl<SlotType: Copy+Debug, const BUFFER_SIZE: usize, const METRICS: bool, const 
     fn pop(&self) -> Option<SlotType> {
         let mutable_self = unsafe { &mut *(*(self as *const Self as *const std::cell::UnsafeCell<Self>)).get() };
         loop {
+            #[cfg(feature = "verif")] crate::verif::yield_point();
             let in_use = self.flag.swap(true, Ordering::Acquire);
             if !in_use {
+                #[cfg(feature = "verif")] crate::verif::yield_point();
                 if self.head == 0 {
                     // empty stack
+                    #[cfg(feature = "verif")] crate::verif::yield_point();
                     self.flag.store(false, Ordering::Relaxed);
                     if METRICS {
                         self.pop_empty_count.fetch_add(1, Ordering::Relaxed);
                     }
                     return None;
                 }
+                #[cfg(feature = "verif")] crate::verif::yield_point();
                 mutable_self.head -= 1;
+                #[cfg(feature = "verif")] crate::verif::yield_point();
                 let element = self.buffer[self.head as usize];
+                #[cfg(feature = "verif")] crate::verif::yield_point();
                 self.flag.store(false, Ordering::Release);
                 if METRICS {
                     self.pop_count.fetch_add(1, Ordering::Relaxed);
